@@ -21,6 +21,12 @@ func init() {
 		assumptions: commonAssumptions,
 		technique:   "custom static analysis: CFG dominance lints over the driver + abstract interpretation of plugins into residual programs checked with go/parser, go/format and go/types",
 	}
+	checks["C02"] = &checkDef{
+		run: runR_C02,
+		explanation: "Engine R on the equal plugin: every accepted abstract path's residual is checked for (R6) two-sidedness — every comparison and helper/method call pairs mirror-image components of the two values, nil tests come in mirrored pairs; (R19) every field of every inlined struct takes part on both sides; (R7) every dereference, pointer field read, cross-indexing and looked-up map value is guarded (non-nil / equal length / ok) in the guard set; (R10) no write through an argument; curried and binary forms emit the same body; the user's Equal method is consulted before `==` is chosen (decision order); library comparisons that ignore nil-ness are flagged. G9 tabulates canEqual over go/types kinds. Not decided: extensional equality, reflexivity/symmetry/transitivity as semantic facts, NaN/cycles (excluded), shapes beyond the bounds.",
+		assumptions: commonAssumptions,
+		technique:   "abstract interpretation of the equal generator into residual programs + AST/guard-set (dominance) analyses of the residuals; predicate tabulation",
+	}
 	checks["C07"] = &checkDef{
 		run: func(c *Ctx) {
 			runG4(c.Repo, c.Rep)
